@@ -102,7 +102,7 @@ Judge(c) ==
   IF c.k = "exc" THEN "ok:exception:" \o c.t
   ELSE IF c.A = <<>>
        THEN (IF c.expect = "found" THEN "BAD:exact-translation-not-found"
-             ELSE IF c.expect = "identity" THEN "BAD:identical-shapes-not-matched" ELSE "ok:none")
+             ELSE IF c.expect \in {"identity", "identity-or-any"} THEN "BAD:identical-shapes-not-matched" ELSE "ok:none")
   ELSE IF ~MapsOnto(c.A, c.s1, c.s2, c.tol) THEN "BAD:reported-transform-does-not-map-s1-onto-s2"
   ELSE IF ~RadiiAgree(c.A, c.s1, c.s2, c.tol) THEN "BAD:reported-transform-changes-arc-radii"
   ELSE IF ~FlagsAgree(c.A, c.s1, c.s2) THEN "BAD:reported-transform-maps-arcs-onto-other-arcs"
